@@ -22,7 +22,7 @@ RULE = ("strings over ACGTNacgt- of length 0..3k (plus ACGT-only strings and rev
         "and badly rounding 3-decimal values (0.55, 0.7, 0.8 ...), motif sets incl. palindromes; both only_last values; "
         "constructor acceptance for run limits and motif lengths around k.  Oracle: the documented predicate written with "
         "Fractions of the binary64 values (every count 0..k is compared against the exact threshold).  Metamorphic oracle "
-        "checks: reverse complement, window conjunction.  non-trivial = string of length >= 2; distinct by payload")
+        "checks: reverse complement, window conjunction.  Foreign-symbol stream: an accepted A/C/G/T string with one or two characters from a pool of newline, CR, NUL, blanks, regex metacharacters, case variants, IUPAC letters, digits and non-ASCII look-alikes inserted at the end / start / next-to-end / middle.  non-trivial = string of length >= 2; distinct by payload")
 TRUSTED_BASE = [
     "Coq 8.16.1 kernel (coqc); vm_compute only in the non-vacuity example; no native_compute",
     "Print Assumptions: Closed under the global context for the seven theorems about the filter logic; the two theorems about "
@@ -101,6 +101,25 @@ def payloads(rng, tier):
         cfg = gen.local_cfg(rng, k)
         acgt_only = rng.random() < 0.6
         yield "valid", {"cfg": cfg, "s": string(rng, k, acgt_only), "only_last": rng.random() < 0.4}
+    # foreign symbols: an otherwise ACCEPTED pure-A/C/G/T string with one (sometimes two) characters outside the alphabet put
+    # at the places where an alphabet test is most easily wrong: the very end, the very start, next to the end, the middle.
+    # The pool has the characters that string / regex / bytes idioms treat specially (newline, CR, NUL, space, tab, regex
+    # metacharacters), case variants, IUPAC codes, digits and non-ASCII look-alikes.
+    pool = ["\n", "\n", "\n", "\r", "\0", " ", "\t", "\x0b", "\x0c", "\x1c", "\x85", "N", "U", "R", "a", "c", "g", "t", "n", ".", "*", "$",
+            "^", "[", "]", "-", "\\", "|", "?", "0", "1", "4", "\u0410", "\uff21", "\u2028", "\u00a0", "\u0393"]
+    for _ in range(n // 3):
+        k = rng.randint(1, 8)
+        cfg = gen.local_cfg(rng, k)
+        base = ""
+        for _try in range(12):
+            base = string(rng, k, True)
+            if exact_pred(cfg, base, False):
+                break
+        w = list(base)
+        for _j in range(1 if rng.random() < 0.8 else 2):
+            pos = rng.choice([len(w), len(w), len(w), 0, max(0, len(w) - 1), len(w) // 2, rng.randint(0, len(w))])
+            w.insert(pos, rng.choice(pool))
+        yield "valid", {"cfg": cfg, "s": "".join(w), "only_last": rng.random() < 0.4}
     # the float -> integer threshold step: Coq primitive floats (Thresholds.v, vm_compute) against CPython
     grid = [0.0, 0.1, 0.2, 0.25, 0.3, 0.35, 0.4, 0.45, 0.5, 0.55, 0.6, 0.65, 0.7, 0.75, 0.8, 0.9, 1.0]
     for _ in range({"quick": 120, "thorough": 3000, "search": 40}[tier]):
@@ -192,7 +211,7 @@ def build(stream, p):
             if int(conj) != raw:
                 return "whole-sequence verdict %d differs from the conjunction over all windows %d" % (raw, int(conj))
         return None
-    return Case(stream, p, call, impl, oracle, domain=all(ord(c) < 128 for c in s), nontrivial=len(s) >= 2,
+    return Case(stream, p, call, impl, oracle, domain=True, nontrivial=len(s) >= 2,
                 tags=["k=%d" % k, "only_last=%d" % only_last, "run=%s" % (cfg["run"] is not None),
                       "gc=%s" % (cfg["gc"] is not None), "motifs=%s" % (cfg["motifs"] is not None)])
 
